@@ -519,7 +519,7 @@ func (s *scenario) hostileRTCPBytes() []byte {
 	case 7: // a NACK whose bitmask runs across the wrap / for numbers never sent, many pairs
 		n := &rtcp.TransportLayerNack{SenderSSRC: 1, MediaSSRC: l.Opts.SSRC}
 		for i := r.Range(1, 40); i > 0; i-- {
-			n.Nacks = append(n.Nacks, rtcp.NackPair{PacketID: uint16(r.Pick(65535, 65530, 0, int(r.U16()))), LostPackets: rtcp.PacketBitmap(r.Pick(0xffff, int(r.U16())))})
+			n.Nacks = append(n.Nacks, rtcp.NackPair{PacketID: r.EdgeU16(), LostPackets: rtcp.PacketBitmap(r.Pick(0xffff, int(r.U16())))})
 		}
 		b, _ := n.Marshal()
 		return b
